@@ -17,7 +17,8 @@ ASSUME = ['snapshot = active descendants of the parent when the exiting micro st
 def run(tier, seed):
     # plus: compound states with two history states (shallow + deep, two shallow, ...)
     extra = [([(4, 6, 1), (7, 7, 1)] if tier == 'quick' else [(4, 6, 2), (7, 7, 1)],
-              {'require': 'multihist', 'schemes': ('asc',)})]
+              {'require': 'multihist', 'schemes': ('asc',)}),
+             ([(8, 8, 1)], {'require': 'hd-under-orth', 'schemes': ('asc',), 'final': False})]
     return schemes.run('C06', tier, seed, PLAN[tier], ['history'], {'history'}, RULE, ASSUME,
                        require='history', extra_plans=extra)
 
